@@ -16,6 +16,11 @@ package centrifuge
 //	Uc / Us  unsubscriber (client unsubscribe command / server-side Client.Unsubscribe)
 //	B:k:n    broadcaster number n of kind k in {p (publication without history, offset 0),
 //	         h (publication with history, offset > 0), j (join), l (leave)}
+//	Bq:h:n   start publication n (with history) while the subscriber holds the locked recovery buffer:
+//	         the goroutine is expected to sit on PubSubSync's pubBufferMu; because synctest.Wait cannot
+//	         see a mutex wait, the harness spins (runtime.Gosched) until the goroutine is finished, parked
+//	         at a gate, or its state in the runtime's goroutine dump is a mutex wait; the only label
+//	         allowed next is S, whose StopBuffering lets it continue
 //	WH / WR  hold / release the connection's writer goroutine (parked in OnTransportWrite)
 //	T        let virtual time pass (per-channel batch delay elapses)
 //
@@ -280,7 +285,32 @@ type vc10Actor struct {
 	done chan struct{}
 }
 
+// vc10BlockedStart marks the goroutine of a `Bq` publication in the runtime's goroutine dump.
+//
+//go:noinline
+func vc10BlockedStart(fn func()) { fn() }
+
+// vc10MarkedGoroutineState returns the wait state of the goroutine running vc10BlockedStart
+// (the text between the brackets of its `goroutine N [state]:` header), "" if there is none.
+func vc10MarkedGoroutineState() string {
+	buf := make([]byte, 4<<20)
+	n := runtime.Stack(buf, true)
+	for _, blk := range strings.Split(string(buf[:n]), "\n\n") {
+		if !strings.Contains(blk, "vc10BlockedStart") {
+			continue
+		}
+		head, _, _ := strings.Cut(blk, "\n")
+		if i := strings.Index(head, "["); i >= 0 {
+			if j := strings.Index(head[i:], "]"); j > 0 {
+				return head[i+1 : i+j]
+			}
+		}
+	}
+	return ""
+}
+
 type vc10World struct {
+	syncing string // actor name of a publication sitting in PubSubSync ("" if none)
 	t      *testing.T
 	g      *vc10Gates
 	node   *Node
@@ -352,6 +382,25 @@ func (w *vc10World) advance(name string, start func()) {
 	} else if w.gateOf(name) == "" {
 		w.errs = append(w.errs, "blocked:"+name)
 	}
+	if q := w.syncing; q != "" {
+		// the publication that sat in PubSubSync went on (to its trace gate, or to its end)
+		if qa, ok := w.actors[q]; ok && w.finished(qa) {
+			delete(w.actors, q)
+			w.syncing = ""
+		} else if w.gateOf(q) != "" {
+			w.syncing = ""
+		}
+	}
+}
+
+// liveList is the parked-actor set in the model's vocabulary (gate keys plus `<actor>@sync`).
+func (w *vc10World) liveList() []string {
+	live := w.g.parkedKeys()
+	if w.syncing != "" {
+		live = append(live, w.syncing+"@sync")
+		sort.Strings(live)
+	}
+	return live
 }
 
 func (w *vc10World) nextID() uint32 {
@@ -360,6 +409,11 @@ func (w *vc10World) nextID() uint32 {
 }
 
 func (w *vc10World) step(label string) {
+	if w.syncing != "" && label != "S" {
+		// synctest.Wait would never return while that goroutine waits for the mutex
+		w.errs = append(w.errs, "syncblocked:"+label)
+		return
+	}
 	switch {
 	case label == "S":
 		w.advance("S", func() {
@@ -375,6 +429,41 @@ func (w *vc10World) step(label string) {
 		})
 	case label == "Us":
 		w.advance("U", func() { w.client.Unsubscribe("ch") })
+	case strings.HasPrefix(label, "Bq:"):
+		parts := strings.Split(label, ":")
+		if len(parts) != 3 || parts[1] != "h" || w.syncing != "" {
+			w.errs = append(w.errs, "badlabel:"+label)
+			return
+		}
+		id := "h" + parts[2]
+		name := "B:" + id
+		w.spawn(name, func() {
+			vc10BlockedStart(func() {
+				_, _ = w.node.Publish("ch", []byte(`{"b":"`+id+`"}`), WithHistory(100, time.Hour))
+			})
+		})
+		state := "unknown"
+		for i := 0; i < 4000000 && state == "unknown"; i++ {
+			switch {
+			case w.finished(w.actors[name]):
+				state = "done"
+			case w.gateOf(name) != "":
+				state = "gate"
+			case i%256 == 255:
+				if st := vc10MarkedGoroutineState(); strings.Contains(st, "Mutex") || strings.Contains(st, "semacquire") {
+					state = "sync"
+				}
+			}
+			runtime.Gosched()
+		}
+		switch state {
+		case "sync":
+			w.syncing = name
+		case "done":
+			delete(w.actors, name)
+		case "unknown":
+			w.errs = append(w.errs, "unsettled:"+name)
+		}
 	case strings.HasPrefix(label, "B:"):
 		parts := strings.Split(label, ":")
 		if len(parts) != 3 {
@@ -531,16 +620,13 @@ func vc10Scenario(t *testing.T, line string) (res string) {
 			}
 			// the model's parked-actor set after every label (when given): stop at the first difference,
 			// before a later label could send a goroutine into a lock the model does not know to be held
-			if i < len(exp) && strings.Join(g.parkedKeys(), ",") != exp[i] {
+			if i < len(exp) && strings.Join(w.liveList(), ",") != exp[i] {
 				diverged = i
 				break
 			}
 		}
 		toks := w.tokens()
-		live := []string{}
-		for _, k := range g.parkedKeys() {
-			live = append(live, k)
-		}
+		live := w.liveList()
 		g.mu.Lock()
 		errs := append([]string(nil), w.errs...)
 		g.mu.Unlock()
@@ -564,7 +650,17 @@ func vc10Scenario(t *testing.T, line string) (res string) {
 			if len(ks) == 0 {
 				break
 			}
-			g.release(ks[0])
+			pick := ks[0]
+			if w.syncing != "" {
+				// a goroutine sits on pubBufferMu: only the subscriber's step can be waited for
+				for _, k := range ks {
+					if strings.HasPrefix(k, "S@") {
+						pick = k
+					}
+				}
+				w.syncing = ""
+			}
+			g.release(pick)
 			synctest.Wait()
 		}
 		if diverged >= 0 {
